@@ -641,29 +641,48 @@ def c08(tier):
 
 
 # ---- weighted graph (C04, C05, C06, C10, C11): one family harness, MODE selects the assertions
-MASK_C0 = sum(1 << k for k in (0, 2, 3, 4, 7, 9, 10))
-MASK_C1 = sum(1 << k for k in (0, 3, 4, 7, 9))
+def M(*ks):
+    return sum(1 << k for k in ks)
+
+
+# leaf indices (harness/graph/family.go): 0 [user] 1 [user,employee] 2 [user:*] 3 [employee:*] 4 [doc#y] 5 [doc#z] 6 [doc#x]
+# 7 [user,doc#y] 8 [doc#y,user] 9 [doc#y,doc#z] 10 [doc#z,doc#y,user] 11 [doc#y,user:*] 12 [employee:*,doc#y] 13 [doc#y with k,user]
+# 14 [user,user with k] 15 [employee,user:* with k,user,user with k] | 16 y 17 z 18 x 19 y from p 20 z from p 21 x from p
+THIS_ALL = M(*range(16))
+NON_ALL = M(*range(16, 22))
+LEAVES_ALL = THIS_ALL | NON_ALL
+BASIC = M(0, 1, 2, 4, 6, 7, 15, 16, 18, 19, 21)    # the 11 leaves of the first family
+CYC = M(0, 2, 4, 7, 16, 19, 21)
 ROOT_ALL = dict(sched="all", sched_funcs=["AssignWeights"], sched_other="first", prune=True)
+ROOT_ROT = dict(sched="rot", sched_funcs=["AssignWeights"], sched_other="first", prune=True)
 ALL = dict(sched="all", prune=True)
 FIRST = dict(sched="first")
 
+FAMS = {
+    # name: (params, description)
+    "A": ({"R": 2, "L10": BASIC, "L11": BASIC}, "A: two relations, 11 basic leaves each (121 models)"),
+    "B": ({"R": 2, "L10": BASIC, "L20": M(16, 18, 19, 21), "L11": BASIC}, "B: a = leaf | leaf op leaf (11 leaves x 4 second operands x or/and/but not), b = leaf (1573 models)"),
+    "C": ({"R": 2, "L10": CYC, "L20": M(16, 18, 19, 21), "L11": M(0, 4, 7, 16, 19)}, "C: as B with 7/5 cycle-relevant leaves (455 models)"),
+    "D": ({"R": 2, "L10": BASIC, "L20": M(16, 18, 19, 21), "L11": BASIC, "L21": M(16, 18, 19, 21)}, "D: a and b with operators (20449 models)"),
+    "E": ({"R": 3, "L10": BASIC, "L11": BASIC, "L12": BASIC}, "E: three relations, 11 basic leaves each (1331 models)"),
+    "P": ({"R": 2, "PARENTS": 2, "L10": CYC, "L20": M(16, 18, 19, 21), "L11": M(0, 4, 7, 16, 19)}, "P: as C with tupleset p: [doc, org]"),
+    # rich families (R = 3)
+    "G": ({"R": 3, "L10": LEAVES_ALL, "L11": M(0, 1), "L21": M(16, 17), "L12": M(0, 1), "L22": M(16, 17)},
+          "G: a = any of 22 leaves, b and c = [user]|[user,employee] optionally op (y|z) (22 x 14 x 14 = 4312 models)"),
+    "H": ({"R": 2, "L10": LEAVES_ALL, "L11": LEAVES_ALL}, "H: two relations, all 22 leaves each (incl. multi-userset, wildcard+userset, conditioned restrictions) (400 models after de-duplication)"),
+    "J": ({"R": 2, "PARENTS": 3, "L10": M(0, 16, 19, 21), "L20": M(16, 19), "L11": M(0, 1, 4, 19)}, "J: tupleset p: [doc, doc with k, org] (duplicate conditioned parent followed by another parent)"),
+    "K": ({"R": 2, "L10": M(0, 1, 7, 8, 13, 14, 15), "L20": M(16, 19), "REV0": 1, "L11": M(0, 4, 16)}, "K: swapped operand order (computed userset before the direct assignment), conditioned/duplicate restrictions"),
+    "L": ({"R": 3, "L10": M(0, 4, 5, 9, 10, 16), "L11": M(0, 4, 5, 9, 10, 16, 17), "L12": M(0, 4, 5, 9, 10, 16, 17), "L22": M(16, 17), "OP2": 3},
+          "L: three relations with multi-userset restrictions (interlocking tuple cycles)"),
+}
+
 
 def fam(mode, name, **kw):
-    fams = {
-        "A": {"R": 2, "OPS0": 0, "OPS1": 0},                                     # 121 models
-        "B": {"R": 2, "OPS0": 1, "OPS1": 0},                                     # 1573 models
-        "C": {"R": 2, "OPS0": 1, "OPS1": 0, "MASK0": MASK_C0, "MASK1": MASK_C1},  # 455 models
-        "D": {"R": 2, "OPS0": 1, "OPS1": 1},                                     # 20449 models
-        "E": {"R": 3, "OPS0": 0, "OPS1": 0, "OPS2": 0},                          # 1331 models
-        "P": {"R": 2, "OPS0": 1, "OPS1": 0, "PARENTS": 2, "MASK0": MASK_C0, "MASK1": MASK_C1},
-    }
-    params = dict(fams[name], MODE=mode)
+    params = dict(FAMS[name][0], MODE=mode)
     return T("graph", "VerifGraph_Family", params, **kw)
 
 
-FAMILY_TEXT = {"A": "A: doc{a,b,p} with 11 leaf rewrites per relation (121 models)", "B": "B: a = leaf or leaf op leaf over 11 leaves x 4 second operands x {or,and,but not}, b = leaf (1573 models)",
-               "C": "C: as B with 7/5 cycle-relevant leaves (455 models)", "D": "D: a and b with operators (20449 models)", "E": "E: three relations, leaves only (1331 models)",
-               "P": "P: as C with two parent types of the tupleset"}
+FAMILY_TEXT = {k: v[1] for k, v in FAMS.items()}
 GRAPH_ASSUME = ["models of the stated family only (type doc with relations a,b[,c] and tupleset p; user, employee terminal types)",
                 "ulid.Make = fresh distinct id; math.Max on converted ints = ite",
                 "goroutines are not modelled (concurrent builds are outside)",
@@ -691,38 +710,122 @@ def kernels():
             dict(T("graph", "VerifC04_KernelEdge", {}, **ALL), _reach=["checked"])]
 
 
+RA, RR, FI, AL = (ROOT_ALL, "all root orders of AssignWeights"), (ROOT_ROT, "every start node of AssignWeights (rotations + reverse)"), (FIRST, "first order"), (ALL, "all orders of all maps")
+THOROUGH_GRAPH = [("B", *RA), ("D", *FI), ("E", *RA), ("P", *RA), ("A", *AL), ("G", *RR), ("H", *RA), ("K", *RA), ("L", *RA), ("J", *RR)]
+
+
 def c04(tier):
-    graph_check("C04", 4, tier, [("B", FIRST, "first order"), ("C", ROOT_ALL, "all root orders")],
-                [("B", ROOT_ALL, "all root orders"), ("D", FIRST, "first order"), ("E", ROOT_ALL, "all root orders"), ("P", ROOT_ALL, "all root orders"), ("A", ALL, "all orders of all maps")],
-                extra_jobs=kernels())
+    graph_check("C04", 4, tier, [("B", *FI), ("J", *FI), ("K", *FI), ("H", *RR), ("L", *RR), ("C", *RA)], THOROUGH_GRAPH, extra_jobs=kernels())
 
 
 def c05(tier):
-    graph_check("C05", 5, tier, [("A", ALL, "all orders of all maps"), ("B", FIRST, "first order")],
-                [("B", ROOT_ALL, "all root orders"), ("D", FIRST, "first order"), ("E", ROOT_ALL, "all root orders"), ("P", ROOT_ALL, "all root orders"), ("A", ALL, "all orders of all maps")],
-                reach=["accepted", "rejected"])
+    graph_check("C05", 5, tier, [("A", *AL), ("B", *FI), ("G", *RR), ("L", *RR), ("H", *RR)], THOROUGH_GRAPH, reach=["accepted", "rejected"])
 
 
 def c06(tier):
-    graph_check("C06", 6, tier, [("A", ALL, "all orders of all maps"), ("C", ROOT_ALL, "all root orders")],
-                [("B", ROOT_ALL, "all root orders"), ("E", ROOT_ALL, "all root orders"), ("P", ROOT_ALL, "all root orders"), ("A", ALL, "all orders of all maps")], reach=["return"])
+    graph_check("C06", 6, tier, [("A", *AL), ("C", *RA), ("H", *RR), ("L", *RR), ("K", *RR)], THOROUGH_GRAPH, reach=["return"])
 
 
 def c10(tier):
-    graph_check("C10", 10, tier, [("B", FIRST, "first order"), ("P", FIRST, "first order")],
-                [("D", FIRST, "first order"), ("E", FIRST, "first order"), ("P", ROOT_ALL, "all root orders")])
+    graph_check("C10", 10, tier, [("B", *FI), ("P", *FI), ("J", *FI), ("K", *FI), ("H", *FI), ("G", *FI)], [("D", *FI), ("E", *FI), ("P", *RA), ("L", *FI), ("G", *FI), ("H", *FI), ("J", *FI), ("K", *FI)])
 
 
 def c11(tier):
-    graph_check("C11", 11, tier, [("B", FIRST, "first order"), ("C", ROOT_ALL, "all root orders")],
-                [("B", ROOT_ALL, "all root orders"), ("D", FIRST, "first order"), ("E", ROOT_ALL, "all root orders"), ("A", ALL, "all orders of all maps")])
+    pub = dict(T("graph", "VerifC11_PublicTypes", {"MODE": 11}, **ROOT_ROT), _reach=["accepted"])
+    graph_check("C11", 11, tier, [("B", *FI), ("C", *RA), ("H", *RR), ("L", *RR)], THOROUGH_GRAPH, extra_jobs=[pub])
+
+
+def c19(tier):
+    from atnre import c19 as eb
+    out = Outcome("C19", tier)
+    out.level = "proof"
+    known = load_known()
+    try:
+        obligations, direct, stats = eb.run(tier)
+    except Exception as e:  # noqa
+        import traceback
+        out.engine_errors.append("engine B failed: %r %s" % (e, traceback.format_exc()[-400:]))
+        out.coverage.update({"obligations": 0, "discharged": 0, "checker_cmd": "z3-new -in", "trusted_base": []})
+        out.finish()
+    discharged = 0
+    for o in obligations:
+        if o["verdict"] == "unsat":
+            discharged += 1
+        elif o["verdict"] == "sat":
+            what = "C19/%s: languages differ, witness: %s" % (o["name"], o["witness"])
+            if match_known(known, "C19", None, o["name"], ""):
+                out.known.append(what)
+                discharged += 1
+            else:
+                out.violations.append((what, save_replay("C19", {"harness": "C19-obligation", "inputs": [], "obligation": o["name"], "witness": o["witness"]})))
+        else:
+            out.inconclusive.append("obligation %s: %s %s" % (o["name"], o["verdict"], o.get("witness")))
+    for name, ok, detail in direct:
+        if not ok:
+            what = "C19/%s %s" % (name, detail)
+            out.violations.append((what, save_replay("C19", {"harness": "C19-direct", "inputs": [], "check": name, "detail": detail})))
+    out.coverage.update({
+        "obligations": len(obligations), "discharged": discharged,
+        "checker_cmd": "z3-new -in  (z3 5.1.0; per rule two queries (assert (str.in_re x (re.diff A B))) (check-sat), A/B = shallow rule languages over character minterms / token types / rule-call letters)",
+        "trusted_base": ["z3 5.1.0 sequence/regex solver", "ATN v4 deserialiser and state elimination in atnre/atn.py", ".g4 subset parser in atnre/g4.py", "shallow-language argument (grammars without left recursion), DESIGN section 3"],
+        "samples": [o["name"] for o in obligations[:3]] + [d[0] for d in direct[:3]],
+        "direct_comparisons": len(direct), "direct_comparisons_failed": [d[0] for d in direct if not d[1]],
+        "stats": stats, "exhaustive": discharged == len(obligations),
+        "bounds": "no bound on word length; all %d parser and %d lexer rules; six serialized ATNs and six .interp dumps" % (stats["parser_rules"], stats["lexer_rules"]),
+    })
+    out.assumptions = ["generated recursive-descent code beyond the embedded ATN and name tables is outside", "the JS and Java parsers are not run"]
+    out.finish()
+
+
+def grammar_facts(out, pid):
+    """Engine B obligations of property pid on the ATN the Go parser/lexer interpret."""
+    from atnre import facts
+    known = load_known()
+    try:
+        results, stats = facts.run()
+    except Exception as e:  # noqa
+        import traceback
+        out.engine_errors.append("engine B (grammar facts) failed: %r %s" % (e, traceback.format_exc()[-300:]))
+        return
+    mine = [r for r in results if r["property"] == pid]
+    discharged = 0
+    for r in mine:
+        if r["verdict"] == "unsat":
+            discharged += 1
+        elif r["verdict"] == "sat":
+            what = "%s/grammar: %s - counterexample: %s" % (pid, r["name"], r["witness"])
+            if match_known(known, pid, None, r["name"], ""):
+                out.known.append(what)
+            else:
+                out.violations.append((what, save_replay(pid, {"harness": "grammar-obligation", "inputs": [], "obligation": r["name"], "witness": r["witness"]})))
+        else:
+            out.inconclusive.append("grammar obligation %s: %s" % (r["name"], r["verdict"]))
+    out.coverage["grammar_obligations"] = {"obligations": len(mine), "discharged": discharged, "names": [r["name"] for r in mine],
+                                           "checker_cmd": "z3-new -in (RegLan emptiness of re.diff per inclusion, no bound on word length)",
+                                           "on": "serialized ATN in pkg/go/gen/openfga_parser.go / openfga_lexer.go (state elimination per rule)", "stats": stats}
 
 
 def c03(tier):
     jobs = [T("transformer", "VerifC03_PrePass", {"N": W(tier, 7, 9)})]
     out = engine_a_check("C03", tier, jobs, {"VerifC03_PrePass": ["lemmas-checked"]},
-                         ["the ANTLR runtime's conformance to its ATN is outside"], "",
-                         bounds={"pre-pass": "all byte strings of length <= %d" % W(tier, 7, 9)})
+                         ["the ANTLR runtime's conformance to its ATN is outside (residual): that the runtime accepts every document the ATN admits and builds the tree the grammar dictates"], "",
+                         bounds={"pre-pass": "all byte strings of length <= %d" % W(tier, 7, 9), "grammar facts": "no bound (regular-language inclusions on the ATN)"})
+    grammar_facts(out, "C03")
+    out.finish()
+
+
+def c09(tier):
+    out = Outcome("C09", tier)
+    out.level = "proof"
+    grammar_facts(out, "C09")
+    go = out.coverage.get("grammar_obligations", {"obligations": 0, "discharged": 0, "names": []})
+    out.coverage.update({"obligations": go["obligations"], "discharged": go["discharged"],
+                         "checker_cmd": "z3-new -in  (RegLan emptiness per inclusion on the ATN embedded in pkg/go/gen/openfga_parser.go)",
+                         "trusted_base": ["z3 5.1.0 sequence/regex solver", "ATN v4 deserialiser + state elimination (atnre/atn.py)", "specification languages in atnre/facts.py"],
+                         "samples": go["names"][:4], "exhaustive": go["obligations"] == go["discharged"],
+                         "bounds": "no bound on word length; grammar-level rules only"})
+    out.assumptions = ["that the ANTLR runtime reports every deviation from the ATN as an error is outside (residual)",
+                       "listener-raised rejections (duplicate relation/condition/parameter, extend in a model, repeated extend) are being added as engine-A harnesses"]
     out.finish()
 
 
@@ -758,7 +861,7 @@ def c12(tier):
     out.finish()
 
 
-REGISTRY = {"C07": c07, "C12": c12, "C15": c15, "C18": c18, "C16": c16, "C14": c14, "C03": c03, "C02": c02, "C13": c13, "C08": c08,
+REGISTRY = {"C09": c09, "C19": c19, "C07": c07, "C12": c12, "C15": c15, "C18": c18, "C16": c16, "C14": c14, "C03": c03, "C02": c02, "C13": c13, "C08": c08,
             "C04": c04, "C05": c05, "C06": c06, "C10": c10, "C11": c11}
 
 
